@@ -87,7 +87,7 @@ def main():
         checks.append({
             "property_id": p,
             "quick_cmd": "timeout 900 %s /verif/simcheck.py --property %s --tier quick" % (PY, p),
-            "thorough_cmd": "timeout 7200 %s /verif/simcheck.py --property %s --tier thorough" % (PY, p),
+            "thorough_cmd": "timeout 10800 %s /verif/simcheck.py --property %s --tier thorough" % (PY, p),
             "evidence_file": "/verif/evidence/%s.json" % p,
             "replay_cmd_template": "%s /verif/simcheck.py --replay {path}" % PY,
             "engine": "simcheck",
